@@ -518,6 +518,11 @@ Definition mon_C06 : monitor := fun L s st s' =>
        else true
    | OSend ta _ p k (HSwap (AToken tb) amount _ _ _) =>
        if mem_addr p (existing_pairs L s) && (ta =? tb) && (k =? amount) then chk p (AToken ta) amount 0 else true
+   (* the rate the pair applies and describes is the rate it was created with (it travels there as a decimal string through
+      the factory's message, the pair's instantiate message and storage) *)
+   | OFacCreatePair _ _ _ _ _ _ comm _ =>
+       let c := match comm with Some c => c | None => DEFAULT_COMMISSION end in
+       forallb (fun p => mem_addr p (existing_pairs L s) || (s_pair L s' p 10 =? c)) (existing_pairs L s')
    | _ => true
    end, false).
 
